@@ -9,8 +9,10 @@ from pyvc.vals import VObj, VBool, VInt, VOpt, VRef, HDict, HList, NONE, usort, 
 HERE = os.path.dirname(os.path.abspath(__file__))
 Exc = usort('ExcObj')
 I = z3.IntSort()
-SET = z3.ArraySort(Exc, z3.BoolSort())
-unseen = z3.Function('number_of_exceptions_not_in', SET, I)     # |U \ s| for the finite set U of live exception objects
+SET = z3.ArraySort(I, z3.BoolSort())
+# the set holds the ids of the exceptions seen (exceptions need not be hashable: fix c0f8281)
+unseen = z3.Function('number_of_exceptions_whose_id_is_not_in', SET, I)   # |{x in U : id(x) not in s}|, U = live exception objects
+id_of = z3.Function('id_of__ExcObj', Exc, I)
 
 
 def _unseen(E, st, s):
@@ -20,16 +22,18 @@ def _unseen(E, st, s):
 CHAIN = {
     'property': ['C04'],
     'generator': True,
-    'params': {'exc': 'ExcObj', 'custom_tb': 'Any', 'seen': 'Opt[Set[ExcObj]]'},
+    'params': {'exc': 'ExcObj', 'custom_tb': 'Any', 'seen': 'Opt[Set[int]]'},
     'returns': 'List[Any]',
-    'locals': {'its': 'List[Any]', 'seen': 'Set[ExcObj]'},
-    'requires': ["implies(seen is not None, exc not in seen)"],
+    'locals': {'its': 'List[Any]', 'seen': 'Set[int]'},
+    'requires': ["implies(seen is not None, id(exc) not in seen)"],
     'modifies': ['seen'],
     # termination: every call marks one more exception as seen; there are finitely many
     'decreases': "ite(seen is None, 1 + unseen_all(), unseen(seen))",
-    'ensures': ["implies(old(seen) is not None, exc in seen)",
-                "implies(old(seen) is not None, forall(x, ExcObj, implies(old(x in seen), x in seen)))"],
-    'raises': {},                     # nothing: in particular no RecursionError for cyclic chains
+    'ensures': ["implies(old(seen) is not None, id(exc) in seen)",
+                "implies(old(seen) is not None, forall(x, Int, implies(old(x in seen), x in seen)))"],
+    # nothing: no RecursionError for cyclic chains, and no TypeError for exceptions that are not hashable (an exception
+    # object put into -- or looked up in -- a set is hashed: that may raise for a user-defined class; an int never does)
+    'raises': {},
     'loops': {'#loop1': []},
     'rules': {},
     'skip_stmts': {'yield from it': 'what is yielded (the text that gets printed) is not part of the claim; termination and '
@@ -46,17 +50,21 @@ def register(E):
     E.objattrs[('ExcObj', '__suppress_context__')] = 'bool'
     E.objattrs[('ExcObj', '__traceback__')] = 'Any'
     s, x = z3.Const('s', SET), z3.Const('x', Exc)
-    empty = z3.K(Exc, z3.BoolVal(False))
+    empty = z3.K(I, z3.BoolVal(False))
     E.axioms += [
         z3.ForAll([s], unseen(s) >= 0),
-        # finite-cardinality facts (mathematics, not code): an unseen exception is counted; marking it decreases the count
-        z3.ForAll([s, x], z3.Implies(z3.Not(z3.Select(s, x)), unseen(s) >= 1)),
-        z3.ForAll([s, x], z3.Implies(z3.Not(z3.Select(s, x)), unseen(z3.Store(s, x, z3.BoolVal(True))) == unseen(s) - 1)),
+        # finite-cardinality facts (mathematics, not code; id() is injective on live objects): an exception whose id is not
+        # in the set is counted; marking its id decreases the count by one
+        z3.ForAll([s, x], z3.Implies(z3.Not(z3.Select(s, id_of(x))), unseen(s) >= 1)),
+        z3.ForAll([s, x], z3.Implies(z3.Not(z3.Select(s, id_of(x))),
+                                     unseen(z3.Store(s, id_of(x), z3.BoolVal(True))) == unseen(s) - 1)),
     ]
+    E.unhashable_sorts = getattr(E, 'unhashable_sorts', set()) | {'ExcObj'}     # user-defined classes: __hash__ may be None
     E.specfuncs.update({'unseen': lambda eng, st, sv: VInt(unseen(st.heap[(sv.inner if isinstance(sv, VOpt) else sv).rid].mem)),
                         'unseen_all': lambda eng, st: VInt(unseen(empty))})
     E.assumptions += [
-        "tb_format._iter_chain: the exception objects alive at one moment form a finite set (|U \\\\ seen| is a natural "
-        "number that decreases when an unseen exception is marked); attribute reads of exceptions do not raise",
+        "tb_format._iter_chain: the exception objects alive at one moment form a finite set and id() is injective on them (the "
+        "number of live exceptions whose id is not in `seen` is a natural number that decreases when one is marked); attribute "
+        "reads of exceptions do not raise; hashing an exception object may raise TypeError (user-defined class), hashing an int never does",
     ]
     E.add_contract('tb_format._iter_chain', CHAIN)
